@@ -103,6 +103,7 @@ type interpreter struct {
 	preemptLeft        int
 	inSchedPoint       bool
 	hraftNodes         []*hraftNode
+	hmlDelegates       []value
 	memfs              *memFS
 	tickers            []chan value
 	hraftIndex         int
